@@ -587,7 +587,9 @@ func (s *Session) handle(line string) bool {
 		if s.srv.Cfg.Auth.EchoOnCancel && s.lastAuthResp != "" {
 			return s.replyRaw(cmdSeq, "*", 0, 334, s.lastAuthResp)
 		}
-		return s.reply(cmdSeq, "*", 0, Action{}, 500, "", "command unrecognized")
+		// servers differ in how they refuse it (500, 501, 502, 503): scriptable as verb "*"
+		act, nth, _ := s.rule("*")
+		return s.reply(cmdSeq, "*", nth, act, 500, "", "command unrecognized")
 	}
 	if s.challengePending {
 		s.challengePending = false
